@@ -59,6 +59,9 @@ func (g *gen) Generate(typs []types.Type) error {
 	if !ok {
 		return fmt.Errorf("%s, the first argument, %s, is not of type slice", g.GetFuncName(typ), typ)
 	}
+	if !types.Comparable(sliceType.Elem()) {
+		return fmt.Errorf("%s, the items of the list are of type %s, which cannot be the key of a map", g.GetFuncName(typ), sliceType.Elem())
+	}
 	return g.genFuncFor(sliceType)
 }
 
